@@ -278,7 +278,7 @@ static std::map<int, RecSink*> g_sinks;
 static std::map<int, LoggerT*> g_loggers;
 static std::map<int, std::vector<int>> g_logger_sinks;
 static long g_next_id = 0;
-static int g_evals = 0;
+static thread_local int g_evals = 0; // argument evaluations on the calling thread
 static std::map<std::string, std::string> g_inject; // "site.k" -> op
 static std::map<int, int> g_site_count;
 static bool g_in_hook = false;
@@ -470,7 +470,7 @@ static std::string exec_op(std::vector<std::string> const& w)
     size_t const len = std::stoul(op == "LB" ? w[3] : w[4]);
     long const id = g_next_id++;
     auto st = a->drive(
-      [=, &a]
+      [=]
       {
         int const ev0 = g_evals;
         uint64_t const b0 = a->last_writer_bytes;
@@ -513,19 +513,19 @@ static std::string exec_op(std::vector<std::string> const& w)
     {
       uint32_t const cap = static_cast<uint32_t>(std::stoul(w[3]));
       int const fl = std::stoi(w[4]);
-      j = [=, &a] { lg->init_backtrace(cap, static_cast<quill::LogLevel>(fl)); a->last_writer_bytes = writer_bytes(); a->result = "done"; };
+      j = [=] { lg->init_backtrace(cap, static_cast<quill::LogLevel>(fl)); a->last_writer_bytes = writer_bytes(); a->result = "done"; };
     }
-    else if (op == "FB") { j = [=, &a] { lg->flush_backtrace(); a->last_writer_bytes = writer_bytes(); a->result = "done"; }; }
-    else if (op == "F") { j = [=, &a] { lg->flush_log(); a->last_writer_bytes = writer_bytes(); a->result = "done"; }; }
+    else if (op == "FB") { j = [=] { lg->flush_backtrace(); a->last_writer_bytes = writer_bytes(); a->result = "done"; }; }
+    else if (op == "F") { j = [=] { lg->flush_log(); a->last_writer_bytes = writer_bytes(); a->result = "done"; }; }
     else if (op == "RB")
     {
       g_loggers[g] = nullptr;
-      j = [=, &a] { FE::remove_logger_blocking(lg); a->last_writer_bytes = writer_bytes(); a->result = "done"; };
+      j = [=] { FE::remove_logger_blocking(lg); a->last_writer_bytes = writer_bytes(); a->result = "done"; };
     }
     else
     {
       g_loggers[g] = nullptr;
-      j = [=, &a] { FE::remove_logger(lg); a->result = "done"; };
+      j = [=] { FE::remove_logger(lg); a->result = "done"; };
     }
     return finish_actor(*a, a->drive(j));
   }
@@ -539,10 +539,17 @@ static std::string exec_op(std::vector<std::string> const& w)
     for (auto const& s : split(w[3], ','))
     {
       int const sid = std::stoi(s);
-      auto sp = FE::get_sink("s" + std::to_string(sid));
+      std::shared_ptr<quill::Sink> sp;
+      try { sp = FE::get_sink("s" + std::to_string(sid)); } catch (...) { return "noop"; }
       if (!sp) { return "noop"; }
       sinks.push_back(sp);
       sids.push_back(sid);
+    }
+    // creating a logger whose name still belongs to a removed-but-not-yet-erased logger is outside the contract
+    // (create_or_get_logger asserts on it): only after remove_logger_blocking returned / the backend cleaned up
+    if (auto* existing = quill::detail::LoggerManager::instance()._find_logger("g" + std::to_string(g)))
+    {
+      if (!existing->is_valid_logger()) { return "noop"; }
     }
     LoggerT* out = nullptr;
     a->drive(
@@ -554,10 +561,12 @@ static std::string exec_op(std::vector<std::string> const& w)
       });
     a->result.clear();
     // create_or_get returns the existing logger (possibly an invalidated one not yet cleaned up)
-    bool const existed = g_loggers.count(g) && g_loggers[g] == out;
-    g_loggers[g] = out;
-    if (!existed) { g_logger_sinks[g] = sids; }
-    return std::string{"ok valid="} + (out->is_valid_logger() ? "1" : "0") + " nsinks=" + std::to_string(out->get_sinks().size());
+    // create_or_get returns the existing logger of that name — possibly one already marked invalid and waiting to
+    // be erased by the backend; such a handle must not be used (and would dangle), so it is not kept
+    bool const valid = out->is_valid_logger();
+    g_loggers[g] = valid ? out : nullptr;
+    g_logger_sinks[g] = sids;
+    return std::string{"ok valid="} + (valid ? "1" : "0") + " nsinks=" + std::to_string(out->get_sinks().size());
   }
   if (op == "SL")
   {
@@ -740,6 +749,7 @@ int main(int argc, char** argv)
         sp.reset();
         for (int i = 0; i < 8; ++i) { g_mw->poll_one(); }
         g_events.clear();
+        for (auto& kv : g_sinks) { kv.second->wcalls = 0; kv.second->fcalls = 0; }
         std::cout << "start => dyn10=" << b[0] << " static10=" << b[1] << " static30=" << b[2]
                   << " now=" << (g_vnow.load() - T0) << "\n";
       }
